@@ -486,6 +486,34 @@ def storedKey (tableGroupBy : List String) (k : DKey) : DKey :=
 def pushdownAllowedT (tableGroupBy pk : List String) (t : QTree) : Bool :=
   partitionKeysKept tableGroupBy pk && pushdownAllowed pk t
 
+/-! ## overlapping partition-side columns
+
+On the non-pushdown path the leader re-groups with pass-through fields: its input columns are
+the partition-side select list, its output columns the same expressions, and bytetree merges
+input column i into output column o through `outExprs[o].SubMergers(inExprs)[i]`.  When select
+expressions overlap (IF(c, f) next to f, f + g next to f, the same aggregate twice) an output
+column could match several input columns.  The real rules — the exact match of the whole
+expression wins over matches of its parts (expr/if.go, binary.go, bounded.go, shift.go), and
+of input columns with the same printed expression only the first is merged (bytetree.New) —
+are modelled in Model/SubMerge.lean (`Ex.subMergers`, `dedupInputs`); for pass-through fields
+their effect is `pickExact`: an output column is merged from the first input column with its
+own expression and from nothing else. -/
+
+/-- first column of every expression (`dedupInputs`) -/
+def dedupCols : List (Ex × List Cell) → List (Ex × List Cell)
+  | [] => []
+  | c :: cs => c :: (dedupCols cs).filter (fun c' => c'.1 != c.1)
+
+/-- the states merged into the output column with expression `e` -/
+def pickExact (cols : List (Ex × List Cell)) (e : Ex) : List (List Cell) :=
+  ((dedupCols cols).filter (fun c => c.1 == e)).map (·.2)
+
+/-- `leaderState` over explicit columns: what a partition row contributes to column `e` when
+    the partition-side select list is `fields` -/
+def leaderStateCols (fields : List Ex) (e : Ex) (sel : Option String) (ms : List SRow) : List Cell :=
+  ((ms.filter (selS sel)).flatMap (fun m => pickExact (fields.map (fun f => (f, m.st f))) e)).foldl
+    e.mrg e.empty
+
 /-! ## the textual view -/
 
 /-- the clauses of a SELECT as sqlparser renders them (`(*Select).Format`) -/
